@@ -1,7 +1,7 @@
 (* Opt.opt produces an optimized form in the sense of OptRel.arel; with the simulation theorem of
    Sem/OptProofs.v this gives the soundness of the optimizer model.  What is run at Generate time is
    tied to the reference semantics by the C01 theorems (Sem/OptWf.v). *)
-From P2 Require Import Base.Prelude Base.PreludeProofs Sem.Num Sem.Syntax Sem.Ops Sem.Lib Sem.Ref Sem.Gen Sem.Sim Sem.RelProofs Sem.GenProofs Sem.RefMono Sem.Opt Sem.OptRel Sem.OptRelProofs Sem.OptOpsProofs Sem.OptLibProofs Sem.OptProofs Sem.OptWf.
+From P2 Require Import Base.Prelude Base.PreludeProofs Sem.Num Sem.Syntax Sem.Ops Sem.Lib Sem.Ref Sem.Gen Sem.Sim Sem.RelProofs Sem.GenProofs Sem.RefMono Sem.Trace Sem.TraceProofs Sem.Opt Sem.OptRel Sem.OptRelProofs Sem.OptOpsProofs Sem.OptLibProofs Sem.OptProofs Sem.OptWf.
 Require Import Lia.
 
 (* ---------- the rewrite steps of the optimizer preserve the meaning ---------- *)
@@ -114,6 +114,48 @@ Proof.
   - rewrite r_list_consts. cbn [bind]. symmetry; exact H.
 Qed.
 
+(* the same redexes with a fixed fuel: they evaluate to the constant in every environment *)
+Lemma evalk_op op a b v env : rt op a b = Ok v -> eval 2 env (AOp op (AConst a) (AConst b)) = Ok v.
+Proof.
+  intros H. rewrite (eval_S known 1 env (AOp _ _ _)). cbn [ref_step]. rewrite !eval_const'. cbn [bind].
+  unfold rt in H. exact H.
+Qed.
+Lemma evalk_unary op c v env : ucalc op c = Ok v -> eval 2 env (AUnary op (AConst c)) = Ok v.
+Proof. intros H. rewrite (eval_S known 1 env (AUnary _ _)). cbn [ref_step]. rewrite !eval_const'. exact H. Qed.
+Lemma evalk_list vs env : eval 2 env (AList (map AConst vs)) = Ok (VList vs).
+Proof. rewrite (eval_S known 1 env (AList _)). cbn [ref_step]. rewrite r_list_consts. reflexivity. Qed.
+Lemma evalk_index lv iv v env : access_list lv iv = Ok v -> eval 2 env (AIndex (AConst lv) (AConst iv)) = Ok v.
+Proof. intros H. rewrite (eval_S known 1 env (AIndex _ _)). cbn [ref_step]. rewrite !eval_const'. exact H. Qed.
+Lemma evalk_map vs env : eval 2 env (AMap (map (fun e => (fst e, AConst (snd e))) vs)) = Ok (VMap vs).
+Proof. rewrite (eval_S known 1 env (AMap _)). cbn [ref_step]. rewrite r_map_consts. reflexivity. Qed.
+Lemma evalk_member mv key v env : access_map mv key = Ok v -> eval 2 env (AMember (AConst mv) key) = Ok v.
+Proof. intros H. rewrite (eval_S known 1 env (AMember _ _)). cbn [ref_step]. rewrite !eval_const'. exact H. Qed.
+Lemma evalk_static f ar cs v env :
+  static_arity f = Some ar -> arity_matches ar (length (map AConst cs)) = true -> run_static f cs = Ok v ->
+  eval 2 env (AStatic f (map AConst cs)) = Ok v.
+Proof.
+  intros Har Hm H. rewrite (eval_S known 1 env (AStatic _ _)). cbn [ref_step].
+  rewrite Har. rewrite arity_matches_ok in Hm. rewrite Hm. rewrite r_list_consts. exact H.
+Qed.
+
+(* a closed term that evaluates to v with fuel k in every environment means the constant v, in the
+   reference semantics and (erasure, fuel monotonicity) in the trace semantics under every oracle *)
+Lemma step_of_evalk k t v :
+  (forall env, eval k env t = Ok v) ->
+  seq t (AConst v) /\ (forall host, tseq known host t (AConst v)).
+Proof.
+  intros H. split.
+  - intros n env N. destruct n as [|n]; [exfalso; apply N; reflexivity|]. rewrite eval_const'.
+    symmetry. rewrite <- (H env). apply eval_agree; [rewrite H; discriminate|exact N].
+  - intros host n env D. destruct n as [|n]; [destruct D|].
+    assert (E : teval known host k env t = (Ok v, [])).
+    { rewrite <- (H env). apply eval_teval. rewrite H. exact I. }
+    rewrite (teval_agree known host k (S n) env t).
+    + rewrite E. reflexivity.
+    + rewrite E. discriminate.
+    + intros EO. rewrite EO in D. destruct D.
+Qed.
+
 End Steps.
 
 (* the redexes of the optimizer have no free names *)
@@ -164,11 +206,11 @@ Lemma konst_side orig v : sidep orig -> cwf v -> sidep (konst fl orig v).
 Proof. intros H C. unfold konst. destruct (strict_ok fl v); auto. Qed.
 
 (* a fold: the redex t is closed and means the constant *)
-Lemma konst_arel s a t v :
-  arel s a t -> closed t -> seq t (AConst v) -> arel s a (konst fl t v).
+Lemma konst_arel k s a t v :
+  arel s a t -> closed t -> (forall env, eval k env t = Ok v) -> arel s a (konst fl t v).
 Proof.
   intros Ha Hc Hs. unfold konst. destruct (strict_ok fl v); auto.
-  eapply ar_step; eauto.
+  destruct (step_of_evalk known k t v Hs). eapply ar_step; eauto.
 Qed.
 
 (* a constant closure applied to constants at Generate time *)
@@ -240,7 +282,7 @@ Proof.
   destruct (is_const x') as [cv|] eqn:E; [|constructor; auto].
   apply is_const_spec in E. subst x'.
   destruct (ucalc op cv) eqn:U; try (constructor; auto; fail).
-  apply konst_arel; [constructor; auto|apply closed_unary|apply seq_unary; auto].
+  apply (konst_arel 2); [constructor; auto|apply closed_unary|intros; apply evalk_unary; auto].
 Qed.
 
 Lemma rule_op_arel s op x x' y y' :
@@ -290,7 +332,7 @@ Proof.
   destruct (is_const x') as [ac|] eqn:E; [|exact Hcomm].
   apply is_const_spec in E. subst x'.
   destruct (calc op ac bc) eqn:C; try (constructor; auto; fail).
-  apply konst_arel; [constructor; auto|apply closed_op|]. apply seq_op. eapply Hfold; eauto.
+  apply (konst_arel 2); [constructor; auto|apply closed_op|]. intros; apply evalk_op. eapply Hfold; eauto.
 Qed.
 
 Lemma rule_list_arel s l l' : Forall2 (arel s) l l' -> arel s (AList l) (rule_list fl l').
@@ -298,7 +340,7 @@ Proof.
   intros Hl. unfold rule_list. destruct (f_list fl); [|constructor; auto].
   destruct (all_const l') as [vs|] eqn:E; [|constructor; auto].
   apply all_const_spec in E. subst l'.
-  apply konst_arel; [constructor; auto|apply closed_list|apply seq_list].
+  apply (konst_arel 2); [constructor; auto|apply closed_list|intros; apply evalk_list].
 Qed.
 
 Lemma rule_index_arel s l l' i i' : arel s l l' -> arel s i i' -> arel s (AIndex l i) (rule_index fl l' i').
@@ -308,7 +350,7 @@ Proof.
   destruct (is_const i') as [iv|] eqn:E2; [|constructor; auto].
   apply is_const_spec in E1, E2. subst.
   destruct (access_list lv iv) eqn:A; try (constructor; auto; fail).
-  apply konst_arel; [constructor; auto|apply closed_index|apply seq_index; auto].
+  apply (konst_arel 2); [constructor; auto|apply closed_index|intros; apply evalk_index; auto].
 Qed.
 
 Lemma rule_map_arel s m m' :
@@ -317,7 +359,7 @@ Proof.
   intros Hm. unfold rule_map. destruct (f_map fl); [|constructor; auto].
   destruct (all_const_map m') as [vs|] eqn:E; [|constructor; auto].
   apply all_const_map_spec in E. subst m'.
-  apply konst_arel; [constructor; auto|apply closed_map|apply seq_map].
+  apply (konst_arel 2); [constructor; auto|apply closed_map|intros; apply evalk_map].
 Qed.
 
 Lemma rule_member_arel s m m' key : arel s m m' -> arel s (AMember m key) (rule_member fl m' key).
@@ -326,7 +368,7 @@ Proof.
   destruct (is_const m') as [mv|] eqn:E1; [|constructor; auto].
   apply is_const_spec in E1. subst.
   destruct (access_map mv key) eqn:A; try (constructor; auto; fail).
-  apply konst_arel; [constructor; auto|apply closed_member|apply seq_member; auto].
+  apply (konst_arel 2); [constructor; auto|apply closed_member|intros; apply evalk_member; auto].
 Qed.
 
 Lemma rule_static_arel s f args args' :
@@ -338,7 +380,7 @@ Proof.
   destruct (all_const args') as [cs|] eqn:E; [|constructor; auto].
   apply all_const_spec in E. subst args'.
   destruct (run_static f cs) eqn:Rs; try (constructor; auto; fail).
-  apply konst_arel; [constructor; auto|apply closed_static|eapply seq_static; eauto].
+  apply (konst_arel 2); [constructor; auto|apply closed_static|intros; eapply evalk_static; eauto].
 Qed.
 
 Lemma rule_call_arel s fn fn' args args' :
